@@ -340,8 +340,21 @@ func (se *SpecEnv) lookupLocal0(name string) (TV, bool) {
 		}
 	}
 	var best types.Object
+	// variables of the function under verification come before same-named leftovers of inlined callees (a callee's
+	// receiver is often called like the caller's)
+	lo, hi := se.C.funcExtent()
+	own := false
+	for obj := range se.Cur.vars {
+		if obj.Name() == name && (!obj.Pos().IsValid() || (obj.Pos() >= lo && obj.Pos() <= hi)) {
+			own = true
+			break
+		}
+	}
 	for obj := range se.Cur.vars {
 		if obj.Name() != name {
+			continue
+		}
+		if own && obj.Pos().IsValid() && (obj.Pos() < lo || obj.Pos() > hi) {
 			continue
 		}
 		if best == nil {
